@@ -85,18 +85,39 @@ type result struct {
 func workload(seed uint64, udp bool) (r result) {
 	p := &prng{seed}
 	suite := hx.Suites9()[p.intn(9)]
+	discover := p.intn(2) == 0
+	if discover {
+		suite = []ref.Suite{{Auth: 3, Integ: 4, Conf: 1}, {Auth: 1, Integ: 1, Conf: 1}}[p.intn(2)]
+	}
 	c := hx.Creds{User: fmt.Sprintf("user%d", p.intn(100)), Password: []byte(fmt.Sprintf("pw%d", p.next()%1000000007)), Priv: uint8(2 + p.intn(3)), Suite: suite, Seed: p.next()}
 	b := simbmc.New(c.Seed)
 	c.Install(b)
-	// repository and DCMI data
-	nrec := 2 + p.intn(6)
+	// advertised suites, split over several records and chunks
+	b.SuiteRecords = append((&ref.SuiteRecord{OEM: true, ID: 0x81, IANA: 0x1234, Auth: 2, Integs: []byte{2, 3}, Confs: []byte{1, 2}}).Bytes(),
+		(&ref.SuiteRecord{ID: byte(p.intn(20)), Auth: suite.Auth, Integs: []byte{suite.Integ}, Confs: []byte{suite.Conf}}).Bytes()...)
+	b.SuiteRecords = append(b.SuiteRecords, (&ref.SuiteRecord{ID: 9, Auth: 2, Integs: []byte{2}, Confs: []byte{1, 3}}).Bytes()...)
+	// repository and DCMI data: record IDs, types and all four ID-string
+	// encodings vary with the seed
+	nrec := 6 + p.intn(15)
 	for i := 0; i < nrec; i++ {
-		id := uint16(1 + i*3)
-		if p.intn(3) == 0 {
+		id := uint16(1 + i*3 + p.intn(3))
+		if p.intn(4) == 0 {
 			b.Data.Repo.Records = append(b.Data.Repo.Records, simbmc.Record{ID: id, Bytes: ref.SDRHeader(id, 1, 5, ref.RecCompact, 0)})
 			continue
 		}
-		f := ref.FSR{Number: byte(p.intn(256)), M: p.intn(1024) - 512, B: p.intn(1024) - 512, ID: ref.IDString{Enc: ref.Enc8Bit, Codes: []byte(fmt.Sprintf("sensor%d", p.intn(1000)))}}
+		ids := ref.IDString{Enc: byte(p.intn(4))}
+		nch := 2 + p.intn(14)
+		for k := 0; k < nch; k++ {
+			switch ids.Enc {
+			case ref.EncBCDPlus:
+				ids.Codes = append(ids.Codes, byte(p.intn(16)))
+			case ref.Enc6Bit:
+				ids.Codes = append(ids.Codes, byte(p.intn(64)))
+			default:
+				ids.Codes = append(ids.Codes, byte(0x30+p.intn(40)))
+			}
+		}
+		f := ref.FSR{Number: byte(p.intn(256)), M: p.intn(1024) - 512, B: p.intn(1024) - 512, K1: p.intn(16) - 8, K2: p.intn(16) - 8, Format: byte(p.intn(3)), Lin: byte(p.intn(12)), ID: ids}
 		b.Data.Repo.Records = append(b.Data.Repo.Records, simbmc.Record{ID: id, Bytes: f.Record(id)})
 	}
 	b.Data.Repo.AddTS, b.Data.Repo.EraseTS = 100, 50
@@ -140,15 +161,25 @@ func workload(seed uint64, udp bool) (r result) {
 	var sb strings.Builder
 	guid, err := t.GetSystemGUID(ctx)
 	fmt.Fprintf(&sb, "guid=%x err=%v;", guid, err)
-	sess, err := t.NewV2Session(ctx, c.Opts())
+	opts := c.Opts()
+	if discover {
+		opts.CipherSuites = nil // default preference list: forces cipher suite discovery
+	}
+	sess, err := t.NewV2Session(ctx, opts)
 	if err != nil {
 		r.err = fmt.Errorf("session: %w", err)
 		return
 	}
 	fmt.Fprintf(&sb, "session algs=%v/%v/%v;", sess.AuthenticationAlgorithm, sess.IntegrityAlgorithm, sess.ConfidentialityAlgorithm)
-	ops := 4 + p.intn(12)
+	ops := 8 + p.intn(12)
 	for i := 0; i < ops; i++ {
-		switch p.intn(7) {
+		op := p.intn(7)
+		if i == 0 || i == ops/2 {
+			op = 2 // every workload walks the repository at least twice
+		} else if i == 1 {
+			op = 3
+		}
+		switch op {
 		case 0:
 			d, err := sess.GetDeviceID(ctx)
 			fmt.Fprintf(&sb, "deviceid=%v err=%v;", d != nil && d.Product == b.Data.DeviceID.Product, err)
@@ -159,7 +190,7 @@ func workload(seed uint64, udp bool) (r result) {
 			repo, err := bmc.RetrieveSDRRepository(ctx, sess)
 			ids := []string{}
 			for id, f := range repo {
-				ids = append(ids, fmt.Sprintf("%d:%s:%d", id, f.Identity, f.M))
+				ids = append(ids, fmt.Sprintf("%d:%q:%d", id, f.Identity, f.M))
 			}
 			sortStrings(ids)
 			fmt.Fprintf(&sb, "sdr=%v err=%v;", ids, err)
@@ -203,7 +234,7 @@ func sortStrings(s []string) {
 func TestConcurrent(t *testing.T) {
 	ns := []int{8}
 	procs := []int{4}
-	reps := 6
+	reps := 12
 	if ev.Thorough() {
 		ns, procs, reps = []int{2, 4, 8, 16}, []int{2, 4, 16}, 25
 	}
